@@ -149,7 +149,7 @@ def run_job(args):
         loader.set_mutations(cfg.get("mutations"))
         loader.set_state(cfg.get("backend", "py"), "sym", cfg.get("fork", False))
         E = eng.Engine(obl_timeout_ms=cfg.get("obl_timeout_ms", 30000),
-                       max_paths=cfg.get("max_paths"),
+                       max_paths=cfg.get("max_paths"), seed=seed,
                        int_bound=cfg.get("int_bound", 8))
         E.known = [k for k in load_known().get("findings", [])
                    if k["property"] == pid and re.search(k.get("config", ""), cfg["name"])]
@@ -403,7 +403,7 @@ def finish(pid, prop, tier, seed, results, wall, partial=False):
     violations = []
     known_hits = {}
     known = [k for k in load_known().get("findings", []) if k["property"] == pid]
-    tot = dict(paths=0, decisions=0, obligations=0, discharged=0, unknown=0,
+    tot = dict(cvc5_unsat=0, cvc5_unknown=0, cvc5_sat=0, paths=0, decisions=0, obligations=0, discharged=0, unknown=0,
                feas_queries=0, obl_queries=0, solver_s=0.0, aborted=0, validated=0,
                trivial=0, divzero_forks=0, exceptions=0)
     funcs = set()
@@ -420,7 +420,7 @@ def finish(pid, prop, tier, seed, results, wall, partial=False):
         st = r["stats"]
         is_control = bool(cfg.get("control"))
         if not is_control:
-            for k in ("paths", "decisions", "obligations", "discharged", "unknown",
+            for k in ("cvc5_unsat", "cvc5_unknown", "cvc5_sat", "paths", "decisions", "obligations", "discharged", "unknown",
                       "feas_queries", "obl_queries", "aborted", "trivial",
                       "divzero_forks", "exceptions"):
                 tot[k] += st[k]
@@ -504,6 +504,8 @@ def finish(pid, prop, tier, seed, results, wall, partial=False):
         exhaustive=(not problems),
         solver_queries=tot["feas_queries"] + tot["obl_queries"],
         solver_seconds=round(tot["solver_s"], 2),
+        second_solver=dict(tool="cvc5 (python wheel)", sampled_obligations=tot["cvc5_unsat"] + tot["cvc5_unknown"] + tot["cvc5_sat"],
+                           agree_unsat=tot["cvc5_unsat"], no_answer_within_2s=tot["cvc5_unknown"], disagree=tot["cvc5_sat"]),
         infeasible_paths_pruned=tot["aborted"],
         division_by_zero_forks=tot["divzero_forks"],
         functions_encoded=sorted(funcs),
